@@ -313,7 +313,9 @@ func init() {
 				w1 := adminDoPeer(h, rq.method, rq.path, peer, hdr, rq.body)
 				o.Obs("requests", 1)
 				st1 := c10State(sys)
-				served := w1.Code != 401 && w1.Code != 403 && w1.Code != 404
+				// a filter that fails closed because of a malformed list entry may say so with a server error instead of 403
+				filterRefusal := w1.Code == 403 || (filtered && dec == 0 && w1.Code >= 500)
+				served := w1.Code != 401 && !filterRefusal && w1.Code != 404
 				body := w1.Body.String()
 				// health endpoint: no token needed, but the IP filter still applies
 				registered := map[string]bool{"/v1/metrics": true, "/v1/backends": true, "/v1/backends/add": true, "/v1/backends/remove": true, "/v1/strategy": true}
@@ -330,7 +332,7 @@ func init() {
 					o.Viol("C10|refused-permitted-peer", fmt.Sprintf("%s: the lists permit this peer but it got 403", ctx), nil)
 					return
 				}
-				if w1.Code == 403 {
+				if filterRefusal {
 					o.Obs("refused_403", 1)
 				} else if needAuth && !authOK {
 					if w1.Code != 401 {
@@ -349,7 +351,17 @@ func init() {
 						o.Viol("C10|state-changed-by-refused-request", fmt.Sprintf("%s: answered %d but the balancer state changed: %s -> %s", ctx, w1.Code, before, st1), nil)
 						return
 					}
-					if strings.HasPrefix(strings.TrimSpace(body), "{") || strings.HasPrefix(strings.TrimSpace(body), "[") || strings.Contains(body, "b0") {
+					// "reveals nothing": no backend name or address, no counter, no strategy, not the token (an error object as such reveals nothing)
+					reveals := false
+					for _, tok := range []string{"b0", "b1", "127.0.0.1", "total_requests", "healthy", "weight", "round_robin", "active_connections"} {
+						if strings.Contains(body, tok) {
+							reveals = true
+						}
+					}
+					if len(c.Token) >= 6 && strings.Contains(body, c.Token) {
+						reveals = true
+					}
+					if reveals {
 						o.Viol("C10|refusal-reveals-data", fmt.Sprintf("%s: refusal body %q", ctx, trunc(body, 80)), nil)
 						return
 					}
